@@ -360,6 +360,7 @@ func (x *Exec) step(fr *Frame, st *State, ins ssa.Instruction, edgeState map[[2]
 	if p := ins.Pos(); p.IsValid() {
 		fr.curPos = p
 	}
+	x.curFrame = fr
 	switch ins := ins.(type) {
 	case *ssa.DebugRef:
 		return true
@@ -426,6 +427,7 @@ func (x *Exec) step(fr *Frame, st *State, ins ssa.Instruction, edgeState map[[2]
 		fr.reg[ins] = m.freshValue(ins.Type(), "idx")
 		x.note("Index on array/string value abstracted")
 	case *ssa.Lookup:
+		x.pseudoSite(fr, st, "builtin.maplookup", []Value{x.val(fr, st, ins.X), x.val(fr, st, ins.Index)}, ins.Pos())
 		fr.reg[ins] = x.lookup(fr, st, ins)
 	case *ssa.MapUpdate:
 		mv, ok := x.val(fr, st, ins.Map).(MapV)
@@ -437,6 +439,8 @@ func (x *Exec) step(fr *Frame, st *State, ins ssa.Instruction, edgeState map[[2]
 		if x.sweep {
 			x.safe(fr, st, Not(Eq(mv.Ref, NilRef)), "nilmap", ins.Pos(), "write to nil map")
 		}
+		x.assumeAt(st, Not(Eq(mv.Ref, NilRef))) // a write to a nil map panics (an obligation in sweep mode)
+		x.pseudoSite(fr, st, "builtin.mapupdate", []Value{mv, x.val(fr, st, ins.Key), x.val(fr, st, ins.Value)}, ins.Pos())
 		x.frameRef(fr, st, mv.Ref, "map update", ins.Pos())
 		x.mapStore(st, mv, x.val(fr, st, ins.Key), x.val(fr, st, ins.Value))
 	case *ssa.MakeMap:
@@ -493,6 +497,7 @@ func (x *Exec) step(fr *Frame, st *State, ins ssa.Instruction, edgeState map[[2]
 		}
 		fr.reg[ins] = v
 	case *ssa.Range:
+		x.pseudoSite(fr, st, "builtin.maprange", []Value{x.val(fr, st, ins.X)}, ins.Pos())
 		fr.reg[ins] = x.rangeInit(fr, st, ins)
 	case *ssa.Next:
 		fr.reg[ins] = x.next(fr, st, ins)
@@ -603,6 +608,27 @@ func (x *Exec) newRef(hint string) Term {
 	id := x.smt.fresh("ref."+hint, SInt)
 	x.smt.assume(And("(< "+id+" 0)", Eq(App("asite", id), IntLit(int64(x.nAlloc)))))
 	return "(base " + id + ")"
+}
+
+// pseudoSite lets contracts anchor assertions at map reads, map writes and map ranges
+// (builtin.maplookup / builtin.mapupdate / builtin.maprange), which are instructions rather
+// than calls.
+func (x *Exec) pseudoSite(fr *Frame, st *State, key string, args []Value, pos token.Pos) {
+	root := x.root
+	if root == nil || root.spec == nil || fr.parent != nil {
+		return
+	}
+	has := false
+	for _, s := range root.spec.Sites {
+		if strings.HasPrefix(s.Pattern, key) {
+			has = true
+		}
+	}
+	if !has {
+		return
+	}
+	ms := x.matchSites(root, fr, st, key, key, args, pos)
+	x.applySiteUpdates(root, fr, st, ms, nil, nil, pos)
 }
 
 // frameWrite / frameRef: under "frame fresh-only" every heap write of the function under proof
